@@ -23,6 +23,7 @@ var kinds = map[string]error{
 	"txdone":   sql.ErrTxDone,
 	"canceled": context.Canceled,
 	"deadline": context.DeadlineExceeded,
+	"notfound": sql.ErrNoRows, // = sqlx.ErrNotFound = sqlc.ErrNotFound
 }
 
 var (
@@ -94,6 +95,7 @@ type Stmt struct {
 type Final struct {
 	K string `json:"k"` // nil | err | panic
 	N int    `json:"n"`
+	S string `json:"s"` // k = err: return this sentinel (a fault kind name, e.g. notfound) itself instead of a BodyErr
 }
 
 // TxCase is the transaction half of a C11 case.
@@ -313,6 +315,9 @@ func RunBody(c TxCase, r *Rec, ops Ops, o *BodyObs) error {
 	}
 	switch c.Final.K {
 	case "err":
+		if e, ok := kinds[c.Final.S]; ok {
+			return e
+		}
 		return &BodyErr{c.Final.N}
 	case "panic":
 		panic("P:" + strconv.Itoa(c.Final.N))
